@@ -55,6 +55,10 @@ class Unknown(Exception):
     pass
 
 
+class BadForm(Exception):
+    """every atom is typed, but the strides do not form a mixed-radix chain: a definite layout error"""
+
+
 def kind_ext(k):
     if k[0] == "nbr":
         return Poly.sym("B(%s)" % k[1])
@@ -491,7 +495,10 @@ class Idx:
         # mixed-radix encode
         p = cxa.poly(n)
         terms = self.classify(p, f, at)
-        lay = self.layout(terms)
+        try:
+            lay = self.layout(terms)
+        except BadForm as ex:
+            raise Unknown(str(ex))
         e = Poly.const(1)
         for k in lay:
             e = e * kind_ext(k)
@@ -603,8 +610,9 @@ class Idx:
         while rest:
             nxt = [t for t in rest if t[1] == expect]
             if len(nxt) != 1:
-                raise Unknown("strides %s do not continue the mixed-radix chain at %r"
-                              % ([repr(t[1]) for t in rest], expect))
+                raise BadForm("index %s has stride %s where the mixed-radix chain (%s) requires stride %r"
+                              % ("/".join(kstr(t[0]) for t in rest), "/".join(repr(t[1]) for t in rest),
+                                 ", ".join(kstr(k) for k in lay) or "start", expect))
             t = nxt[0]
             rest.remove(t)
             lay.append(t[0])
@@ -712,6 +720,10 @@ class Idx:
             else:
                 terms = self.classify(p, f, loops)
             lay = self.layout(terms)
+        except BadForm as e:
+            rec["status"] = "bad"
+            rec["detail"] = str(e)
+            return
         except Unknown as e:
             rec["status"] = "dead" if f.qual in self.dead else "unknown"
             rec["detail"] = str(e)
